@@ -36,6 +36,39 @@ def _fold_len_bounds(prog, m, f):
     return out
 
 
+def r19_11(prog, rep, m, F):
+    """(a) the parsed length has an UPPER bound (a frame longer than 65520 bytes is a protocol error, not a frame that
+    unread_pkt_line() cannot write back); (b) an empty capability list is no capability, not the capability b''; (c) the client's
+    status-report reader treats bytes left in its pkt-line parser at the end of the stream as a protocol error."""
+    rep.rule("R19.11", "length prefix bounded above where it is parsed; empty capability list = no capabilities; a status report cut inside a pkt-line is an error")
+    f = m.funcs.get("_parse_pkt_line_length")
+    if f is None:
+        raise AnalysisError("_parse_pkt_line_length not found")
+    ub = False
+    for x in ast.walk(f.node):
+        v = var_cmp(x, F)
+        if v is not None and v[1] in ("<=", "<") and isinstance(v[2], int) and 65516 <= v[2] <= 65521 and isinstance(x, ast.Compare):
+            ub = True
+        if isinstance(x, ast.Compare) and any(isinstance(F.try_fold(c), int) and 65516 <= F.try_fold(c) <= 65521 for c in [x.left] + x.comparators):
+            ub = True
+    rep.ob("R19.11", PROTO, f.qual, "the parsed length is compared with the maximum pkt-line length and refused above it", ub and any(isinstance(x, ast.Raise) for x in ast.walk(f.node)),
+           "prefixes fff1..ffff are returned as frames of up to 65531 bytes; unread_pkt_line() re-encodes with pkt_line(), which refuses them: eof() and "
+           "negotiate_protocol_version() raise ValueError instead of a frame or a protocol error", f.node.lineno)
+    f = m.funcs.get("extract_capabilities")
+    filt = any(isinstance(c, ast.comprehension) and c.ifs for c in ast.walk(f.node)) or any(isinstance(c, ast.Call) and callee_name(c) == "filter" for c in ast.walk(f.node)) \
+        or any(isinstance(t, (ast.If, ast.IfExp)) and "capabilities" in norm(t.test) for t in ast.walk(f.node) if not isinstance(getattr(t, "test", None), ast.Compare))
+    rep.ob("R19.11", PROTO, f.qual, "empty strings are dropped from the split capability list", filt,
+           "b''.split(b' ') is [b'']: a line that ends in NUL with nothing after it (what dulwich's own client writes when nothing was negotiated) yields the "
+           "capability b'' and receive-pack refuses the push", f.node.lineno)
+    cm = prog.module("dulwich/client.py")
+    t = cm.funcs.get("GitClient._handle_receive_pack_tail") or next((fn for q, fn in cm.funcs.items() if q.endswith("._handle_receive_pack_tail")), None)
+    if t is None:
+        raise AnalysisError("client._handle_receive_pack_tail not found")
+    tails = [x for x in ast.walk(t.node) if isinstance(x, ast.If) and "get_tail()" in norm(x.test) and any(isinstance(y, ast.Raise) for y in ast.walk(x))]
+    rep.ob("R19.11", cm.rel, t.qual, "bytes left in the pkt-line parser when the side-band stream ends raise a protocol error", bool(tails),
+           "a status report that ends inside `ng refs/heads/b locked` is accepted: the rejection disappears and the push looks successful", t.node.lineno)
+
+
 def run(prog: Program, rep, tier="quick"):
     rep.rule("R19.1", "frame encoder: the formatted length is dominated by a raising bound test <= 65520")
     rep.rule("R19.2", "TABLE-AGREE on framing constants and decoder ordering (flush before <4; size-4 only for size>=4; "
@@ -334,6 +367,7 @@ def run(prog: Program, rep, tier="quick"):
     r19_7(prog, rep, m, F)
     r19_9(prog, rep, m, F)
     r19_10(prog, rep, m, F)
+    r19_11(prog, rep, m, F)
     from sa.common import share
     from rules import c02
     share(rep, lambda: c02.run(prog, rep, tier), "R19.8", lambda o: o.rule == "R02.7" and o.func.startswith("PackStreamReader."),
